@@ -11,9 +11,13 @@ CONSTANTS
   MaxCompPair = 2
   WordSample = {97, 65, 116, 45, 0, 200}
   MaxWord = 3
+  SliceDefSample = {97, 84}
+  MaxSliceDef = 2
+  SliceSample = {97, 197, 161, 180, 224}
+  MaxSlice = 5
 INVARIANTS
   BuiltinsConstruct BuiltinAlphabetLaws BuiltinComplementLaws NucleotideIndexComplement
-  AlphabetRejects AlphabetLaws AllValidLaw
+  AlphabetRejects AlphabetLaws AllValidLaw SliceLaw
   PairingRejects PairingLaws
   ComplementorLaws
 CHECK_DEADLOCK FALSE
